@@ -474,6 +474,7 @@ def bounded(rep: Report, tier: str, seed: int) -> None:
     n_nontrivial = sum(v for k, v in counts.items() if k.split(":")[1] in ("ok", "fail"))
     rep.nontrivial_keys |= set((PID, i) for i in range(n_nontrivial))
     rep.violations.sort(key=lambda v: (len(v.replay["case"]["operands"]), sum(1 for x in v.replay["case"]["operands"] if x is None), v.key, len(repr(v.replay["case"]["operands"])), repr(v.replay["case"])))
+    O.cap_unclassified(rep)
     wrap.require_evaluated(rep, CB.names())
     rep.extra["status_counts"] = dict(sorted(counts.items()))
     rep.extra["methods"] = len(keys)
